@@ -47,8 +47,8 @@ PLANS = {
         "floor": 2000,
     },
     "C11": {
-        "quick": [sess("mixed", "C11", 400, 25, args={"short": 1}), sess("mixed", "C11", 200, 25, args={"builder": 1, "short": 1, "nolibwalk": 1})],
-        "thorough": [sess("mixed", "C11", 5000, 300, args={"short": 1}), sess("mixed", "C11", 3000, 300, args={"builder": 1, "short": 1, "nolibwalk": 1})],
+        "quick": [sess("mixed", "C11", 400, 20, args={"short": 1}), sess("dirfill", "C11", 150, 12), sess("alloc", "C11", 200, 12), sess("mixed", "C11", 200, 25, args={"builder": 1, "short": 1, "nolibwalk": 1})],
+        "thorough": [sess("mixed", "C11", 5000, 300, args={"short": 1}), sess("dirfill", "C11", 3000, 180), sess("alloc", "C11", 3000, 180), sess("mixed", "C11", 3000, 300, args={"builder": 1, "short": 1, "nolibwalk": 1})],
         "floor": 2000,
     },
     "C12": {
